@@ -447,7 +447,7 @@ def nontrivial(line, res):
 # alphabets
 def H(*toks): return ' '.join(str(t) for t in toks)
 
-M3, M64, M70, M128, M140, M200, M600 = msg(3), msg(64, 2), msg(70, 3), msg(128, 4), msg(140, 5), msg(200, 6), msg(600, 7)
+M3, M64, M70, M128, M140, M200, M600, M260 = msg(3), msg(64, 2), msg(70, 3), msg(128, 4), msg(140, 5), msg(200, 6), msg(600, 7), msg(260, 8)
 
 
 def hash_alpha(alg):
@@ -525,10 +525,10 @@ def hmac_alpha(alg):
 
 def tlsh_alpha(cfg):
     dg = hx(bytes([0x12, 0x34, 0x56]) + msg(32, 13))                # a 35-byte digest for 128 buckets / chklen 1
-    A = [H('call', hx(M600), 'F'), H('call', hx(M140), 'T'), H('call', hx(M140), 'F'), H('call', hx(M3), 'T'), H('update', hx(M140)),
-         H('final', hx(M140), 'T'), H('final', hx(M600), 'F'), H('final', 'x', 'F'), H('digest'), H('from_hash', dg), H('reset'),
-         H('sib.call', hx(M600), 'F')]
-    P = [H('call', hx(M600), 'F'), H('call', hx(M140), 'T'), H('call', hx(M140), 'F')]
+    A = [H('call', hx(M260), 'F'), H('call', hx(M140), 'T'), H('call', hx(M140), 'F'), H('call', hx(M3), 'T'), H('update', hx(M140)),
+         H('final', hx(M140), 'T'), H('final', hx(M70), 'F'), H('final', 'x', 'F'), H('digest'), H('from_hash', dg), H('reset'),
+         H('sib.call', hx(M140), 'T')]
+    P = [H('call', hx(M260), 'F'), H('call', hx(M140), 'T'), H('call', hx(M140), 'F')]
     return A, P
 
 
@@ -617,7 +617,8 @@ def universe(tier):
         add('hist', s, [], blake_alpha(int(s[5:])))
     for size in (512, 256):
         add('hist', 'Blake2', [size], blake2_alpha(size))
-    add('hist', 'blake2b', [], blake2_alpha(512)); add('hist', 'blake2s', [], blake2_alpha(256))
+    add('hist', 'blake2b', [], blake2_alpha(512))
+    if full: add('hist', 'blake2s', [], blake2_alpha(256))
     add('histp', 'Skein', [256, 256, '-', '-', '-', 'l0,0,0'], skein_alpha(None))
     add('histp', 'Skein', [512, 512, hx(b'kk'), hx(b'p'), hx(b'n'), 'l0,0,0'], skein_alpha(None))
     add('histp', 'Skein', [256, 256, '-', '-', '-', 'l1,1,3'], skein_alpha(None))
@@ -680,23 +681,20 @@ def cases(tier, rng):
     U = universe(tier)
     exh = 2 if tier == 'quick' else 3
     for op, kind, cfg, A, P, cls in U:
-        depth = exh
-        if cls == 'known': depth = 1
-        if tier != 'quick' and cls == 'slow' and len(A) > 9: depth = 2          # slow primitives with a large alphabet: 3 is seeded below
+        depth = 1 if cls == 'known' else exh
         for n in range(depth + 1):
-            for seq in itertools.product(A, repeat=n):
-                for p in P:
-                    yield mkline(op, kind, cfg, seq, p), '%s:len%d' % (kind, n)
+            # every history of length n; followed by every probe (short histories) or by probes taken in rotation
+            # (longest exhaustive length: quick 2 probes per history, thorough 1), so that every probe follows every step
+            per = len(P) if (n < depth or n <= 1) else (2 if tier == 'quick' else 1)
+            for j, seq in enumerate(itertools.product(A, repeat=n)):
+                for k in range(per):
+                    yield mkline(op, kind, cfg, seq, P[(j + k + sum(map(len, seq))) % len(P)]), '%s:len%d' % (kind, n)
         if cls == 'known': continue
         # seeded longer histories
         if tier == 'quick':
-            k = 24 if cls == 'slow' else 60
-            for _ in range(k):
+            for _ in range(16 if cls == 'slow' else 40):
                 yield mkline(op, kind, cfg, [rng.choice(A) for _ in range(3)], rng.choice(P)), '%s:len3-seeded' % kind
         else:
-            if depth == 2:
-                for _ in range(600):
-                    yield mkline(op, kind, cfg, [rng.choice(A) for _ in range(3)], rng.choice(P)), '%s:len3-seeded' % kind
             for _ in range(60 if cls == 'slow' else 200):
                 n = rng.randint(4, 8)
                 yield mkline(op, kind, cfg, [rng.choice(A) for _ in range(n)], rng.choice(P)), '%s:len4-8-seeded' % kind
